@@ -478,11 +478,15 @@ impl<'a, 'o, 'c> CommonMarkFormatter<'a, 'o, 'c> {
             2
         } else {
             let list_number = if let Some(last_stack) = self.ol_stack.last_mut() {
-                let list_number = *last_stack;
                 if entering {
+                    let list_number = *last_stack;
                     *last_stack += 1;
-                };
-                list_number
+                    list_number
+                } else {
+                    // The number this item was written with, so that the same
+                    // marker width is removed from the prefix again.
+                    last_stack.wrapping_sub(1)
+                }
             } else {
                 match node.data.borrow().value {
                     NodeValue::Item(ref ni) => ni.start,
